@@ -1867,14 +1867,39 @@ func (x *Exec) assumeLoopInv(st *State, fr *Frame, head *ssa.BasicBlock) *loopCu
 // havocLoop forgets everything the loop may modify. Locations whose base is a loop-invariant local
 // (e.g. fields of the *repeat held in a variable assigned before the loop) are forgotten at that reference
 // only; everything else falls back to forgetting the whole field array.
+// sortedBlocks lists a block set in block-index order (deterministic query text).
+func sortedBlocks(set map[*ssa.BasicBlock]bool) []*ssa.BasicBlock {
+	var out []*ssa.BasicBlock
+	for b := range set {
+		out = append(out, b)
+	}
+	sort.Slice(out, func(i, j int) bool { return out[i].Index < out[j].Index })
+	return out
+}
+
+func sortedAllocs(set map[*ssa.Alloc]bool) []*ssa.Alloc {
+	var out []*ssa.Alloc
+	for a := range set {
+		out = append(out, a)
+	}
+	sort.Slice(out, func(i, j int) bool {
+		if out[i].Pos() != out[j].Pos() {
+			return out[i].Pos() < out[j].Pos()
+		}
+		return out[i].Name() < out[j].Name()
+	})
+	return out
+}
+
 func (x *Exec) havocLoop(st *State, fr *Frame, head *ssa.BasicBlock) {
-	body := x.loops(fr.fn).blocks[head]
+	bodySet := x.loops(fr.fn).blocks[head]
+	body := sortedBlocks(bodySet)
 	x.curLoopHead = head
 	// pass 1: locals assigned in the loop
 	allocs := newModset()
 	heapStored := map[*ssa.Alloc]bool{}
 	x.loopHeapStored = heapStored
-	for b := range body {
+	for _, b := range body {
 		for _, in := range b.Instrs {
 			if s, ok := in.(*ssa.Store); ok {
 				if al, ok := rootAlloc(s.Addr); ok {
@@ -1889,7 +1914,7 @@ func (x *Exec) havocLoop(st *State, fr *Frame, head *ssa.BasicBlock) {
 	}
 	ms := newModset()
 	var precise []func()
-	for b := range body {
+	for _, b := range body {
 		for _, in := range b.Instrs {
 			x.instrModsLoop(st, fr, in, ms, allocs, &precise)
 			// ghosts assigned by call-site annotations inside the loop
@@ -1904,7 +1929,7 @@ func (x *Exec) havocLoop(st *State, fr *Frame, head *ssa.BasicBlock) {
 			}
 		}
 	}
-	for a := range allocs.allocs {
+	for _, a := range sortedAllocs(allocs.allocs) {
 		ms.allocs[a] = true
 	}
 	c := x.loopContract(fr)
@@ -1933,7 +1958,7 @@ func (x *Exec) havocLoop(st *State, fr *Frame, head *ssa.BasicBlock) {
 		}
 	}
 	// locals
-	for a := range ms.allocs {
+	for _, a := range sortedAllocs(ms.allocs) {
 		if p, ok := fr.regs[a]; ok {
 			if cp, ok := p.(CellPtr); ok {
 				nv := st.freshVal(cp.C.typ, "loop_"+cp.C.name)
@@ -2173,7 +2198,7 @@ func (x *Exec) havocModset(st *State, ms *modset) {
 		}
 		return
 	}
-	for g := range ms.ghosts {
+	for _, g := range sortedKeys(ms.ghosts) {
 		if s, ok := x.ghostSort(g); ok {
 			st.ghost[g] = st.fresh("ghost_"+g, s, nil)
 		}
@@ -2183,7 +2208,7 @@ func (x *Exec) havocModset(st *State, ms *modset) {
 		return
 	}
 	// heap keys: drop every key that matches one of the modified fields (whole array forgotten)
-	for key := range ms.keys {
+	for _, key := range sortedKeys(ms.keys) {
 		x.havocKeyPrefix(st, key)
 	}
 	if ms.elems {
